@@ -133,12 +133,20 @@ where
 
                     self.changes.push(change);
 
-                    if self.last_pushed_seq == self.last_seq {
+                    // several rows can carry the same seq (cr-sqlite attributes a row
+                    // marker it had to create to the seq of the change that caused it):
+                    // they belong to the same chunk
+                    let next_has_same_seq = matches!(
+                        self.iter.peek(),
+                        Some(Ok(next)) if next.seq == self.last_pushed_seq
+                    );
+
+                    if self.last_pushed_seq == self.last_seq && !next_has_same_seq {
                         // this was the last seq! break early
                         break;
                     }
 
-                    if self.buffered_size >= self.max_buf_size {
+                    if self.buffered_size >= self.max_buf_size && !next_has_same_seq {
                         // chunking it up
                         let start_seq = self.last_start_seq;
 
